@@ -26,7 +26,9 @@ import copy
 from typing import Any, Callable, Iterable
 
 from ..engine.cfg import CFG, own_parts
-from ..engine.normalize import fold_diamonds, inline_helpers
+from ..engine.normalize import (
+    ANCHOR_NAMES, _bind, _helper_target, _names_stored, _strip_doc, fold_diamonds, inline_helpers,
+)
 from ..engine.report import AnalysisError
 from ..engine.resolver import FuncInfo, Program, walk_no_nested
 from ..engine.util import canon_total, is_logging_call, node_writes, u
@@ -199,6 +201,142 @@ def atoms_ast(e: ast.AST) -> list[Any]:
     return leaves(canon_total(e))
 
 
+def count_loop(loop: ast.AST | None) -> tuple[int, int] | None:
+    """(start, step) of `for <name> in itertools.count(...)` with constant integer arguments."""
+    if not isinstance(loop, ast.For) or not isinstance(loop.target, ast.Name):
+        return None
+    it = loop.iter
+    if not (isinstance(it, ast.Call) and u(it.func) in ("itertools.count", "count")):
+        return None
+    args = {"start": ast.Constant(0), "step": ast.Constant(1)}
+    for k, a in zip(("start", "step"), it.args):
+        args[k] = a
+    for kw in it.keywords:
+        if kw.arg not in args:
+            return None
+        args[kw.arg] = kw.value
+    vals = []
+    for k in ("start", "step"):
+        a = args[k]
+        if not (isinstance(a, ast.Constant) and type(a.value) is int):
+            return None
+        vals.append(a.value)
+    return vals[0], vals[1]
+
+
+def _has_return(stmts: list[ast.stmt]) -> bool:
+    return any(isinstance(n, ast.Return) for st in stmts for n in walk_no_nested(st))
+
+
+def _terminates(stmts: list[ast.stmt]) -> bool:
+    return bool(stmts) and isinstance(stmts[-1], (ast.Return, ast.Raise, ast.Continue, ast.Break))
+
+
+def _guards_to_else(stmts: list[ast.stmt], depth: int = 0) -> list[ast.stmt] | None:
+    """Rewrite value-less early returns that sit in if/else chains into nested if/else, so that the
+    body can stand in place of a call statement (`if c: return` + rest -> `if c: pass else: rest`).
+    None when a return carries a value or sits inside a loop / try / with."""
+    if depth > 8:
+        return None
+    if not _has_return(stmts):
+        return stmts
+    for i, st in enumerate(stmts):
+        if not _has_return([st]):
+            continue
+        prefix, rest = stmts[:i], stmts[i + 1:]
+        if isinstance(st, ast.Return):
+            if st.value is not None and not (isinstance(st.value, ast.Constant) and st.value.value is None):
+                return None
+            return prefix or [ast.copy_location(ast.Pass(), st)]
+        if isinstance(st, ast.If):
+            body = list(st.body) + ([] if _terminates(st.body) else copy.deepcopy(rest))
+            orelse = list(st.orelse) + ([] if _terminates(st.orelse) else copy.deepcopy(rest))
+            a = _guards_to_else(body, depth + 1)
+            b = _guards_to_else(orelse, depth + 1) if orelse else []
+            if a is None or b is None:
+                return None
+            new = ast.If(test=st.test, body=a or [ast.copy_location(ast.Pass(), st)], orelse=b)
+            return prefix + [ast.copy_location(new, st)]
+        return None
+    return stmts
+
+
+def splice_guarded(prog: Program, fn: FuncInfo, root: ast.AST) -> ast.AST | None:
+    """Splice private helpers (methods, module functions, closures) that are called as a statement
+    (`h(...)` / `await h(...)`) and only return early without a value from if/else guard clauses.
+    Returns a new tree, or None when nothing was spliced."""
+    root = copy.deepcopy(root)
+    spliced_names = set(getattr(root, "_spliced", ()))
+    nested = {n.name: n for n in ast.walk(root)
+              if isinstance(n, (ast.FunctionDef, ast.AsyncFunctionDef)) and n is not root}
+    changed = False
+
+    def suites(node: ast.AST) -> Iterable[list[ast.stmt]]:
+        for n in walk_no_nested(node):
+            for field in ("body", "orelse", "finalbody"):
+                sub = getattr(n, field, None)
+                if isinstance(sub, list) and sub and isinstance(sub[0], ast.stmt):
+                    yield sub
+            for h in getattr(n, "handlers", []) or []:
+                yield h.body
+            for c in getattr(n, "cases", []) or []:
+                yield c.body
+
+    for suite in list(suites(root)):
+        i = 0
+        while i < len(suite):
+            st = suite[i]
+            i += 1
+            if not isinstance(st, ast.Expr):
+                continue
+            call = st.value.value if isinstance(st.value, ast.Await) else st.value
+            if not isinstance(call, ast.Call):
+                continue
+            h = _helper_target(prog, fn, call, nested)
+            if h is None or h is root or h.name in ANCHOR_NAMES or h.name == getattr(root, "name", None) \
+                    or h.decorator_list and not all(isinstance(d, ast.Name) and d.id in (
+                        "staticmethod", "override") for d in h.decorator_list):
+                continue
+            if isinstance(h, ast.AsyncFunctionDef) != isinstance(st.value, ast.Await):
+                continue
+            body = _strip_doc(h.body)
+            if not body or len(body) > 40 or not _has_return(body) \
+                    or any(isinstance(n, (ast.Yield, ast.YieldFrom)) for b in body for n in walk_no_nested(b)):
+                continue  # return-free helpers are the engine's business
+            binds = _bind(h, call)
+            new_body = _guards_to_else(copy.deepcopy(body))
+            if binds is None or new_body is None:
+                continue
+            locals_h: set[str] = set()
+            for b in new_body:
+                locals_h |= _names_stored(b)
+            tag = h.name.strip("_")
+            ren = {n: f"{n}__{tag}" for n in locals_h | set(binds)}
+            pre: list[ast.stmt] = []
+            mapping: dict[str, ast.AST] = {}
+            for pname, arg in binds.items():
+                if pname not in locals_h and isinstance(arg, (ast.Name, ast.Attribute, ast.Constant)):
+                    mapping[pname] = arg
+                else:
+                    pre.append(ast.copy_location(ast.Assign(
+                        targets=[ast.Name(id=ren[pname], ctx=ast.Store())], value=arg), st))
+            for b in new_body:
+                for nn in ast.walk(b):
+                    if isinstance(nn, ast.Name) and nn.id in ren and nn.id not in mapping:
+                        nn.id = ren[nn.id]
+            sub = _Subst(mapping)
+            new_body = [sub.visit(b) for b in new_body]
+            suite[i - 1:i] = pre + new_body
+            i = i - 1 + len(pre) + len(new_body)
+            spliced_names.add(h.name)
+            changed = True
+    if not changed:
+        return None
+    ast.fix_missing_locations(root)
+    root._spliced = spliced_names  # type: ignore[attr-defined]
+    return root
+
+
 class _Subst(ast.NodeTransformer):
     def __init__(self, mapping: dict[str, ast.AST]) -> None:
         self.mapping = mapping
@@ -234,7 +372,14 @@ class Flow:
                 # statement, which is fine for "what is computed" but not for path questions such
                 # as "is the created task registered on every path".  Locals are resolved on
                 # demand by expand(), which never moves an effect.
-                node = fold_diamonds(inline_helpers(prog, fn))
+                node = inline_helpers(prog, fn)
+                for _ in range(2):
+                    # helpers the engine leaves alone because of guard-clause returns
+                    node2 = splice_guarded(prog, fn, node)
+                    if node2 is None:
+                        break
+                    node = inline_helpers(prog, fn, node=node2)
+                node = fold_diamonds(node)
                 self.fn = FuncInfo(fn.name, fn.module, node, fn.cls, fn.outer)
             except AnalysisError:
                 raise
@@ -275,6 +420,13 @@ class Flow:
                 if target is not None and target.qual not in self.spliced:
                     self.spliced.append(target.qual)
         self.cfg = CFG(self.fn.node, fn.file)
+        # `for i in itertools.count(...)` never runs out: its `done` edge is infeasible
+        for n in self.cfg.nodes:
+            if n.kind == "for" and count_loop(n.ast) is not None:
+                for m, lab in list(self.cfg.succ[n.id]):
+                    if lab == "done":
+                        self.cfg.succ[n.id].remove((m, lab))
+                        self.cfg.pred[m].remove((n.id, lab))
         self._expanded: dict[tuple[int, int], ast.AST] = {}
         self._pinned: set[str] = set()
         self._keep: list[ast.AST] = []
